@@ -237,6 +237,15 @@ def run(chk):
                     r, fields = sym.path_of(t)
                     if fields:
                         visited.add(fields[-1])
+                # a visit may only depend on the presence of what lies on its own access path (the enclosing Option / the list
+                # being iterated): a condition on any other part of the model means the visit is skipped for some models
+                # (seed C18t: `let Some(mod_par) = .. else { continue }` placed in front of the remaining visits)
+                paths = [sym.fmt(t) for t in ev[2][0]]
+                for g in sorted(guards.guard_set(b, S, ev[6])):
+                    mentioned = re.findall(r"\barg\d+(?:\.\w+)*", g)
+                    if any(not any(pth == q or pth.startswith(q + ".") for pth in paths) for q in mentioned):
+                        chk.add(Finding("R18-cleanup", "R18-cleanup::foreign-guard::%s::%s" % ("|".join(p_.split(".")[-2] + "." + p_.split(".")[-1] for p_ in paths), g),
+                                        "ifdata_cleanup() visits %s only under `%s`, which is not about the visited path itself: invalid IF_DATA blocks there are kept in models where the condition fails" % (paths, g), b.where(ev[4])))
         for h in sorted(holders):
             n += 1
             if h not in visited:
